@@ -68,6 +68,10 @@ def shape_programs():
     for pfx in ("u8", "u32", "u64"):          # the only values the front end accepts besides u16
         P.append(("flat-prefix-%s" % pfx,
                   "options {\n    StringPrefixLenType = %s;\n    ArrayPrefixLenType = %s;\n}\n" % (pfx, pfx) + flat))
+    # string prefix and list prefix of DIFFERENT widths (which of the two a step uses is then visible)
+    for sp, lp in (("u8", "u32"), ("u32", "u8"), ("u16", "u8"), ("u8", "u16")):
+        P.append(("flat-prefix-%s-%s" % (sp, lp),
+                  "options {\n    StringPrefixLenType = %s;\n    ArrayPrefixLenType = %s;\n}\n" % (sp, lp) + flat))
     P.append(("flat-signed", """root packet Flat {
     i8 a,
     i16 b,
@@ -377,6 +381,22 @@ def main():
             if st == strict:
                 cnt[cls if cls != "Fails" else "Fails:" + err_class(detail)] += 1
         print("  verdicts (%s):" % ("strict: load + run" if strict else "run only"), dict(cnt))
+    # where the emitted Lua is not the generator model's (tie broken): a recorded finding is behaviour the
+    # model REPRODUCES; search the programs concerned for messages on which the observed dissector is wrong
+    # in a way the model is not
+    newdev = []
+    mm_pids = sorted(set(m["program"] for m in res["mismatches"]))
+    if mm_pids and not use_model:
+        sub = collections.OrderedDict((pid, observed[pid]) for pid in mm_pids if pid in observed)
+        orc_m = oracle(sub, use_model=True, tag="lua_oracle_m")
+        if "results" in orc_m:
+            model_v = {(pid, label, st): (cls, detail) for pid, label, st, cls, detail in orc_m["results"]}
+            for pid, label, st, cls, detail in orc["results"]:
+                if pid in sub and not st and cls not in ("Agree", "NotAMessage") and model_v.get((pid, label, st)) != (cls, detail):
+                    newdev.append((pid, label, cls, detail, model_v.get((pid, label, st))))
+    for pid, label, cls, detail, mv in newdev[:6]:
+        print("NEW-DEVIATION %s [%s] observed %s: %s | model %s" % (pid, label, cls, detail[:200], mv))
+    print("new deviations (observed dissector wrong where the generator model is not): %d" % len(newdev))
     # per program
     per = collections.OrderedDict()
     for pid, label, st, cls, detail in orc["results"]:
@@ -411,7 +431,7 @@ def main():
             tight.append(pid)
     print("  frag violated:", bad)
     print("  all sampled messages agree (run) but lua_frag false:", tight)
-    ok_all = not res["mismatches"] and not bad and missed == 0 and t1_ok
+    ok_all = not res["mismatches"] and not bad and missed == 0 and t1_ok and not newdev
     print("RESULT", "OK" if ok_all else "FAIL")
     sys.exit(0 if ok_all else 1)
 
